@@ -3,6 +3,7 @@ package main
 import (
 	"fmt"
 	"reflect"
+	"time"
 	"unsafe"
 
 	"github.com/welllog/golib/ringz"
@@ -119,6 +120,11 @@ func c01ImplM(in, model []int64) []int64 {
 				case op == -10:
 					v, ok := a.r.PopWait(-1)
 					results[i] = append(results[i], 2, B(ok), v)
+				case op <= -100: // timed: n further tries after the first
+					v, ok := a.r.PopWait(c01Dur(-op - 100))
+					results[i] = append(results[i], 2, B(ok), v)
+				case op >= 2000000:
+					results[i] = append(results[i], 1, B(a.r.PushWait((op-2000000)%10000, c01Dur((op-2000000)/10000))))
 				case op >= 1000000:
 					results[i] = append(results[i], 1, B(a.r.PushWait(op-1000000, -1)))
 				default:
@@ -226,6 +232,14 @@ func c01ImplM(in, model []int64) []int64 {
 	return out
 }
 
+// the duration for which the 10 ms ticker allows exactly n further tries: 0 for n = 0, else 10n - 5 ms
+func c01Dur(n int64) time.Duration {
+	if n <= 0 {
+		return 0
+	}
+	return time.Duration(10*n-5) * time.Millisecond
+}
+
 // all tid sequences with exactly n0 zeros and n1 ones
 func interleavings(n0, n1 int, cur []int64, f func([]int64)) {
 	if n0 == 0 && n1 == 0 {
@@ -320,13 +334,17 @@ func c01Gen(c *Ctx) {
 		total := 0
 		for j := range progs {
 			for o := 0; o < 1+r.Intn(3); o++ {
-				switch x := r.Intn(12); {
+				switch x := r.Intn(14); {
 				case x < 5:
 					progs[j] = append(progs[j], 0)
 				case x < 10:
 					progs[j] = append(progs[j], int64(100*(j+1)+o+1))
-				default:
+				case x < 12:
 					progs[j] = append(progs[j], -1-int64(r.Intn(3)))
+				case x < 13:
+					progs[j] = append(progs[j], -100-int64(r.Intn(3))) // PopWait(d >= 0)
+				default:
+					progs[j] = append(progs[j], 2000000+10000*int64(r.Intn(3))+int64(100*(j+1)+o+1)) // PushWait(v, d >= 0)
 				}
 				total++
 			}
